@@ -35,6 +35,11 @@ def is_call_to(t, names):
 
 def subterms(t):
     if isinstance(t, tuple):
+        if t and isinstance(t[0], tuple):  # a sequence of terms (call arguments)
+            for x in t:
+                for y in subterms(x):
+                    yield y
+            return
         yield t
         for x in t[1:]:
             if isinstance(x, tuple):
@@ -407,3 +412,84 @@ def ret_value_term(view):
                     return ("uninit",)
                 return sv[:2] if sv[0] == "outparam" else sv[1]
     return P.term(f, o)
+
+
+# ---------- callee classes as seen from a caller path ----------
+def class_of_call(view, call):
+    """predicate over callee PathViews selecting the return class that this caller path imposes on `call`
+    (from the branch atoms that test the call's result). Returns (pred, description)."""
+    conds = []
+    for (a, p) in view.atoms:
+        if a[0] != "cmp":
+            if a[0] == "truth" and a[1][0] in ("call", "icall") and a[1][3] == call.id:
+                conds.append(("truth", p))
+            continue
+        l, r = a[2], a[3]
+        if l[0] in ("call", "icall") and l[3] == call.id:
+            if r == ("null",):
+                conds.append(("null", _poleq(a, p)))
+            elif r[0] == "const":
+                conds.append((a[1] if p else negate_pred(a[1]), r[1]))
+
+    def pred(cv):
+        for c in conds:
+            if c[0] == "null":
+                isnull = cv.ret_is_null() or cv.ret_const() == 0
+                if isnull != c[1]:
+                    return False
+            elif c[0] == "truth":
+                k = cv.ret_const()
+                if k is None:
+                    continue
+                if bool(k) != c[1]:
+                    return False
+            else:
+                r = ret_class_pred(c[0], c[1])(cv)
+                if r is False:
+                    return False
+        return True
+    return pred, conds
+
+
+def _poleq(atom, pol):
+    return (atom[1] == "eq" and pol) or (atom[1] == "ne" and not pol)
+
+
+_OUTSET_MEMO = {}
+
+
+def out_set(ctx, P, cg, g, k, cls, cls_key, depth=0):
+    """does g assign *param_k (a pointer out-parameter) on the paths of return class cls?
+    'always' | 'never' | 'sometimes'. Follows the out-parameter through callees."""
+    key = (id(P), g.name, k, repr(cls_key))
+    if key in _OUTSET_MEMO:
+        return _OUTSET_MEMO[key]
+    _OUTSET_MEMO[key] = "sometimes"  # recursion guard
+    views = [v for v in path_views(ctx, P, g) if cls(v)]
+    res = set()
+    for v in views:
+        hit = False
+        for _, i in v.insts():
+            if i.op == "store" and P.strip(g, i.a[1]) == k and not P.is_null(i.a[0]):
+                hit = True
+            elif i.op == "call" and depth < 4:
+                for ak, a in enumerate(i.a):
+                    if P.strip(g, a) == k:
+                        for tname in cg.targets(g, i):
+                            h = P.functions.get(tname)
+                            if h is None:
+                                continue
+                            sub, conds = class_of_call(v, i)
+                            if out_set(ctx, P, cg, h, ak, sub, conds, depth + 1) == "always":
+                                hit = True
+        res.add(hit)
+    if not views:
+        r = "never"
+    elif res == {True}:
+        r = "always"
+    elif res == {False}:
+        r = "never"
+    else:
+        r = "sometimes"
+    _OUTSET_MEMO[key] = r
+    return r
